@@ -2,6 +2,7 @@ import UgoVerif.Proofs.EvalFix
 import UgoVerif.Proofs.EvalSym
 import UgoVerif.Proofs.EvalLocals
 import UgoVerif.Proofs.EvalMono
+import UgoVerif.Proofs.CompileAppend
 /-
   C10 — evaluating fragments one by one equals evaluating them as one script.
 
@@ -12,13 +13,22 @@ import UgoVerif.Proofs.EvalMono
   Proved (all inputs, no bounds):
     * `fixOpPop_spec`        what `fixOpPop` does to every NOOP-free decodable stream
     * `locals_roundtrip`     GetLocals ∘ initLocals(NumParams = NumLocals) restores frame 0, boxes included
-    * `session_table_monotone`  the table operations keep earlier bindings, the disabled set, NumLocals
+    * `session_table_monotone`       the table operations keep earlier bindings, the disabled set, NumLocals
+    * `session_table_monotone_full`  a whole `compileSession` — success, error or panic — extends the
+                                     root table and only appends to the constant pool
+                                     (`session_resolve_stable`, `evalSession_monotone`: every later fragment)
+    * `compile_append_monadic`       compiling `f₁ ++ f₂` = compiling `f₁`, then `f₂`, in one compiler state
+    * `compile_append_partial`       for `f₂` jump-free at its top level the bytes of `f₂` behind any prefix
+                                     are the bytes of `f₂` compiled alone: no relocation
+    * `eval_split_partial`           bytecode level: the batch main function is the concatenation of the
+                                     fragments' streams (all fragments but the first jump-free at top level)
     * `first_fragment_eq_batch`
-  Stated, NOT proved (`C10_full`): session ≈ batch for every fragment sequence.  It needs
-  compile-append and VM-relocation lemmas over the (still `partial`) compiler model; it is
-  moreover false of the code for three input classes (open findings C10:variadic-param,
-  C10:codeless-fragment and — with the optimizer on — C10:optimizer-error-timing, reproduced by
-  the stream's oracle on every run).
+  Stated, NOT proved (`C10_full`): session ≈ batch for every fragment sequence.  Missing: the
+  relocating version of `compile_append` for top-level `if`/`for`/`for-in`/`try`/`&&`/`||`/`?:`
+  (jump operands are absolute), and the run level (VM model `Equivariant` for `Spec.Reloc.reloc_sim`
+  and the boundary-state lemma).  `C10_full` is moreover false of the code for three input classes
+  (open findings C10:variadic-param, C10:codeless-fragment and — with the optimizer on —
+  C10:optimizer-error-timing, reproduced by the stream's oracle on every run).
 -/
 namespace UgoVerif.Props.C10
 open UgoVerif UgoVerif.Go UgoVerif.Ast UgoVerif.Compile UgoVerif.VM UgoVerif.Eval
@@ -271,6 +281,65 @@ theorem evalSession_monotone (F : FloatOps) (fuel : Nat) : ∀ (frags : List (Li
       subst ho
       exact ⟨h1, h2⟩
 
+/-! ### compile-append -/
+
+/-- **compile_append_partial.**  `f₁` ANY statement list that compiles from `s` to `s₁`; `f₂` jump-free
+    at its top level (`Ast.jfSs`: no `if`, `for`, `for-in`, `try`, `break`/`continue`, `&&`, `||`,
+    `?:` outside function literals — everything else, function literals with any body included).
+    Compiling `f₁ ++ f₂` from `s` and compiling `f₂` alone from `s₁` with an emptied instruction
+    stream (what the next fragment of a session starts from) have the same outcome (`EquiOut`):
+    the same error, or both succeed and the batch state is the fragment's final state with
+    `s₁.insts` in front of its stream: same tables, same constant pool, same bytes appended, no
+    operand relocated.
+    NOT covered: top-level statements that emit jumps — their operands are absolute positions, so
+    the appended bytes differ by a constant shift (`Spec/Reloc`); the bookkeeping of pending
+    placeholder operands (C05's `St`) would have to be redone relationally.
+    Not part of the statement: (1) the `Bytecode()` epilogue (final RETURN) and `fixOpPop`;
+    (2) source-map keys and `Pos` values (the batch AST has shifted positions; bytes, tables and
+    constants do not depend on them — not proved); (3) `Eval`'s fresh `cfuncCache` per fragment
+    (`Model/Eval.maskFns`): a function literal of a later fragment that is identical to a function
+    constant of an earlier one is de-duplicated by the batch compile and not by the session, which
+    changes constant indexes (not behaviour). -/
+theorem compile_append_partial (s s₁ : CState) (f₁ f₂ : List Stmt) (hjf : jfSs f₂ = true)
+    (h₁ : runCM (compileStmts f₁) s = (.ok (), s₁)) :
+    EquiOut s₁.insts (runCM (compileStmts f₂) (freshStream s₁)) (runCM (compileStmts (f₁ ++ f₂)) s) :=
+  Compile.compile_append_partial s s₁ f₁ f₂ hjf h₁
+
+/-- the monadic core, for ALL statement lists: the batch compile is the parts compiled one after
+    the other in one compiler state -/
+theorem compile_append_monadic (f₁ f₂ : List Stmt) :
+    compileStmts (f₁ ++ f₂) = (do compileStmts f₁; compileStmts f₂) := compileStmts_append f₁ f₂
+
+/-- non-vacuity: `x := 1; f := func() { if x { return x } }; f()` is jump-free at its top level
+    (the `if` sits inside a function literal); a top-level `if` is not -/
+example : jfSs [.assign 1 tDefine [.ident 1 "x"] [.int 6 1#64],
+    .assign 9 tDefine [.ident 9 "f"] [.func 14 false [] 21 [.if_ 23 none (.ident 26 "x") 28 [.return_ 30 (some (.ident 37 "x"))] none]],
+    .expr 44 (.call 44 false (.ident 44 "f") [])] = true := by decide
+example : jfS (.if_ 1 none (.ident 4 "x") 6 [] none) = false := by decide
+
+/-- **eval_split_partial** (bytecode level).  Fragments `fs` compiled one after the other by the
+    compiler model — each from an emptied stream and from the tables and constants its predecessor
+    left (`compileChain`) — give the streams `Δ₀, Δ₁, …`.  If every fragment after the statements
+    `done` already compiled is jump-free at its top level, the concatenation compiles from the same
+    start to `s₁.insts ++ Δ₀ ++ Δ₁ ++ …`, with the same final tables and constant pool: the main
+    function of fragment `k` is, byte for byte, the part of the batch main function behind the
+    streams of the earlier fragments (both before the `Bytecode()` epilogue).
+    With `session_table_monotone_full` (slot numbers and constant indexes of earlier names are the
+    same in every later fragment) and `locals_roundtrip` (frame 0 is restored, boxes included) this
+    is the compile half of `session ≈ batch` for these fragments.
+    REMAINING GAP (run level): that the VM model, running `Δ₀ ++ … ++ Δₖ ++ RETURN`, passes after
+    `Δ₀ ++ … ++ Δₖ₋₁` through a state whose frame-0 slots are what `getLocals` stored, and from
+    there behaves like a fresh run of `Δₖ ++ RETURN` on those locals.  For jump-free streams this is
+    the instance `φ = (· + d)` of `Spec.Reloc.reloc_sim` (C11), which asks for `Machine.Equivariant`
+    of the machine — not established for the VM model's 44 opcodes — plus the boundary-state lemma
+    (stack height = NumLocals at a statement boundary, C05 `compile_wf` clause still open). -/
+theorem eval_split_partial (fs : List (List Stmt)) (s : CState) (done : List Stmt) (s₁ : CState)
+    (h₁ : runCM (compileStmts done) s = (.ok (), s₁)) (hjf : ∀ f ∈ fs, jfSs f = true)
+    (ds : List (Array UInt8)) (u : CState) (hc : compileChain s₁ fs = some (ds, u)) :
+    ∃ M, runCM (compileStmts (done ++ fs.flatten)) s =
+      (.ok (), { u with insts := ds.foldl (· ++ ·) s₁.insts, sourceMap := M }) :=
+  eval_split_chain fs s done s₁ h₁ hjf ds u hc
+
 /-! ### the headline -/
 
 /-- address-free image of a runtime value, to depth `d` -/
@@ -363,7 +432,9 @@ theorem first_fragment_eq_batch (F : FloatOps) (fuel : Nat) (s0 : Session) (f : 
     `fixOpPop`; the locals round trip with boxes; the table operations.  Missing for `C10_full`:
     `compile_append` (compiling `f₁ ++ f₂` = compiling `f₁`, then `f₂` from the resulting table and
     constants, modulo the final RETURN and a constant shift of jump targets) and the VM relocation
-    simulation (`Spec/Reloc`), both over the compiler model's `partial def` block. -/
+    simulation (`Spec/Reloc`); since round 2 the compile half is proved for fragments that are jump-free
+    at their top level (`compile_append_partial`, `eval_split_partial`) and the table half for all
+    fragments (`session_table_monotone_full`). -/
 theorem C10_partial :
     (∀ (F : FloatOps) (fuel : Nat) (s0 : Session) (f : List Stmt) (rest : List (List Stmt)),
       (evalSession F fuel s0 (f :: rest))[0]? = some (evalRun F fuel s0 ((f :: rest).take 1).flatten)) ∧
